@@ -545,9 +545,6 @@ Proof.
     rewrite Hs in Hs'. inversion Hs'; subst r'. rewrite He, estr_text_of. reflexivity.
 Qed.
 
-Definition is_env (e : expr) : bool :=
-  match e with ENamed _ _ _ _ | EMath _ _ _ | EGroup _ _ _ | ERoot _ => true | _ => false end.
-
 Lemma set_string_env_is_set_body root np h q x s :
   get root np = Some h -> is_env h = true -> cview h = [(q, x)] -> is_node x = false ->
   exists root', set_body_at root np [text_of s] = Some root' /\ set_string root np s = Done root'.
@@ -574,9 +571,6 @@ Proof.
   - destruct (serialise_set_body root np h [text_of s] G N) as [r' [Hs' He]].
     rewrite Hs in Hs'. inversion Hs'; subst r'. rewrite He, estr_text_of. reflexivity.
 Qed.
-
-Definition has_args (e : expr) : bool :=
-  match e with ECmd _ _ _ _ | ENamed _ _ _ _ => true | _ => false end.
 
 Lemma estr_set_args_of e a :
   has_args e = true ->
@@ -715,26 +709,42 @@ Proof.
   - intros j rest. rewrite !get_app, G, G'. simpl. rewrite args_of_set_body. reflexivity.
 Qed.
 
-(* deleting the second of two equal siblings leaves the first *)
-Lemma C05_twins root hp h i j x :
+(* textually identical twins: deleting the second leaves the first where it was, deleting
+   the first leaves the second (one place further left) *)
+Lemma C05_twins root hp h i j x y :
   get root hp = Some h -> supports h = true -> arg_depth_ok hp = true ->
-  nth_error (body_of h) i = Some x -> nth_error (body_of h) j = Some x -> (i < j)%nat ->
-  exists root', delete root hp j = Done root' /\
-    get root' (hp ++ [SBody i]) = Some x /\
-    estr root' = span_pre root hp ++ estr_list (firstn j (body_of h))
-                   ++ estr_list (skipn (S j) (body_of h)) ++ span_post root hp.
+  nth_error (body_of h) i = Some x -> nth_error (body_of h) j = Some y ->
+  estr x = estr y -> (i < j)%nat ->
+  (exists root', delete root hp j = Done root' /\
+     get root' (hp ++ [SBody i]) = Some x /\
+     estr root' = span_pre root hp ++ estr_list (firstn j (body_of h))
+                    ++ estr_list (skipn (S j) (body_of h)) ++ span_post root hp) /\
+  (exists root', delete root hp i = Done root' /\
+     get root' (hp ++ [SBody (j - 1)]) = Some y /\
+     estr root' = span_pre root hp ++ estr_list (firstn i (body_of h))
+                    ++ estr_list (skipn (S i) (body_of h)) ++ span_post root hp).
 Proof.
-  intros G Sup D Xi Xj Hij.
-  pose proof (child_is_node h (SBody j) x Xj) as N.
-  destruct (delete_is_splice root hp j h x G Xj Sup D) as [r [Hs Hd]].
-  exists r. split; [exact Hd|]. split.
-  - pose proof (nth_error_lt _ _ _ Xj) as Lj.
-    destruct (untargeted_unchanged root hp h j 1 [] r G N (Nat.lt_le_incl _ _ Lj) Hs)
-      as [_ [Hb _]].
-    rewrite (Hb i [] Hij). apply (get_item _ _ _ _ _ G Xi).
-  - destruct (serialise_update root hp h G N) as [_ U].
-    destruct (U j 1%nat []) as [r' [Hs' He]]. rewrite Hs in Hs'. inversion Hs'; subst r'.
-    rewrite He. simpl. replace (j + 1)%nat with (S j) by lia. reflexivity.
+  intros G Sup D Xi Xj _ Hij.
+  pose proof (child_is_node h (SBody j) y Xj) as N.
+  pose proof (nth_error_lt _ _ _ Xj) as Lj.
+  destruct (serialise_update root hp h G N) as [_ U].
+  split.
+  - destruct (delete_is_splice root hp j h y G Xj Sup D) as [r [Hs Hd]].
+    exists r. split; [exact Hd|]. split.
+    + destruct (untargeted_unchanged root hp h j 1 [] r G N (Nat.lt_le_incl _ _ Lj) Hs)
+        as [_ [Hb _]].
+      rewrite (Hb i [] Hij). apply (get_item _ _ _ _ _ G Xi).
+    + destruct (U j 1%nat []) as [r' [Hs' He]]. rewrite Hs in Hs'. inversion Hs'; subst r'.
+      rewrite He. simpl. replace (j + 1)%nat with (S j) by lia. reflexivity.
+  - destruct (delete_is_splice root hp i h x G Xi Sup D) as [r [Hs Hd]].
+    exists r. split; [exact Hd|]. split.
+    + assert (Li : (i <= length (body_of h))%nat) by lia.
+      destruct (untargeted_unchanged root hp h i 1 [] r G N Li Hs) as [_ [_ [Ha _]]].
+      assert (Hj : (i + 1 <= j)%nat) by lia.
+      pose proof (Ha j [] Hj) as E. simpl in E. rewrite Nat.add_0_r in E.
+      rewrite E. apply (get_item _ _ _ _ _ G Xj).
+    + destruct (U i 1%nat []) as [r' [Hs' He]]. rewrite Hs in Hs'. inversion Hs'; subst r'.
+      rewrite He. simpl. replace (i + 1)%nat with (S i) by lia. reflexivity.
 Qed.
 
 (* ------------------------------------------------- the reference model (C15) *)
@@ -760,4 +770,541 @@ Proof.
     rewrite ?app_nil_r. reflexivity.
   - rewrite (map_abs_str _ Hb). unfold estr_list. cbn [concat estr map]. 
     rewrite ?app_nil_r. reflexivity.
+Qed.
+
+Lemma abs_args e : r_args (abs e) = map abs (args_of e).
+Proof. destruct e; reflexivity. Qed.
+Lemma abs_body e : r_body (abs e) = map abs (body_of e).
+Proof. destruct e; reflexivity. Qed.
+Lemma abs_set_body e b : abs (set_body e b) = r_set_body (abs e) (map abs b).
+Proof. destruct e; reflexivity. Qed.
+Lemma abs_set_args e a :
+  has_args e = true -> abs (set_args_of e a) = r_set_args (abs e) (map abs a).
+Proof. destruct e; simpl; intros H; try discriminate; reflexivity. Qed.
+
+Lemma map_subst_nth {A B} (f : A -> B) i x l :
+  map f (subst_nth i x l) = subst_nth i (f x) (map f l).
+Proof. unfold subst_nth. rewrite map_app, firstn_map, skipn_map. reflexivity. Qed.
+Lemma map_splice {A B} (f : A -> B) i k new l :
+  map f (splice i k new l) = splice i k (map f new) (map f l).
+Proof. unfold splice. rewrite !map_app, firstn_map, skipn_map. reflexivity. Qed.
+
+Lemma abs_child e s : r_child (abs e) s = option_map abs (child e s).
+Proof.
+  destruct s as [i|i]; simpl.
+  - rewrite abs_args. apply nth_error_map.
+  - rewrite abs_body. apply nth_error_map.
+Qed.
+
+Lemma abs_set_child e s c c' :
+  child e s = Some c -> abs (set_child e s c') = r_set_child (abs e) s (abs c').
+Proof.
+  intros H. destruct s as [i|i]; simpl.
+  - rewrite (abs_set_args e _ (child_has_args e i c H)), map_subst_nth, abs_args. reflexivity.
+  - rewrite abs_set_body, map_subst_nth, abs_body. reflexivity.
+Qed.
+
+Lemma abs_get : forall p e x, get e p = Some x -> r_get (abs e) p = Some (abs x).
+Proof.
+  induction p as [|s p IH]; intros e x H; simpl in *.
+  - inversion H; subst. reflexivity.
+  - rewrite abs_child. destruct (child e s) as [c|]; [|discriminate]. simpl. apply IH. exact H.
+Qed.
+
+Lemma abs_put : forall p e x e',
+  put e p x = Some e' -> r_put (abs e) p (abs x) = Some (abs e').
+Proof.
+  induction p as [|s p IH]; intros e x e' H; simpl in *.
+  - inversion H; subst. reflexivity.
+  - rewrite abs_child. destruct (child e s) as [c|] eqn:C; [|discriminate]. simpl.
+    destruct (put c p x) as [c'|] eqn:Pc; [|discriminate]. inversion H; subst.
+    rewrite (IH c x c' Pc), (abs_set_child e s c c' C). reflexivity.
+Qed.
+
+(* the core of the refinement: replacing the expression at p by h', where abs h' is f
+   applied to the abstraction of what was there, is r_update with f *)
+Lemma abs_update root p h h' root' f :
+  get root p = Some h -> put root p h' = Some root' -> abs h' = f (abs h) ->
+  r_update (abs root) p f = abs root'.
+Proof.
+  intros G P E. unfold r_update. rewrite (abs_get _ _ _ G), <- E, (abs_put _ _ _ _ P).
+  reflexivity.
+Qed.
+
+Lemma abs_splice_at root p h i k new root' :
+  get root p = Some h -> splice_at root p i k new = Some root' ->
+  ref_step (abs root) (RSplice p i k (map abs new)) = abs root'.
+Proof.
+  intros G S. unfold splice_at, set_body_at in S. rewrite G in S. simpl.
+  apply (abs_update root p h _ root' _ G S).
+  rewrite abs_set_body, map_splice, abs_body. reflexivity.
+Qed.
+
+Lemma abs_set_body_at root p h l root' :
+  get root p = Some h -> set_body_at root p l = Some root' ->
+  ref_step (abs root) (RSetBody p (map abs l)) = abs root'.
+Proof.
+  intros G S. unfold set_body_at in S. rewrite G in S. simpl.
+  apply (abs_update root p h _ root' _ G S). apply abs_set_body.
+Qed.
+
+Lemma select_map {A B} (f : A -> B) l idxs :
+  select (map f l) idxs = option_map (map f) (select l idxs).
+Proof.
+  induction idxs as [|i r IH]; simpl; [reflexivity|].
+  rewrite nth_error_map, IH.
+  destruct (nth_error l i); simpl; [|reflexivity]. destruct (select l r); reflexivity.
+Qed.
+
+Lemma done_inj {A} (a b : A) : Done a = Done b -> a = b.
+Proof. intros H. inversion H. reflexivity. Qed.
+
+Lemma holder_ok_inv t hp i :
+  holder_ok t hp i = true ->
+  exists h x, get t hp = Some h /\ nth_error (body_of h) i = Some x /\
+              supports h = true /\ arg_depth_ok hp = true.
+Proof.
+  unfold holder_ok. destruct (get t hp) as [h|]; [|discriminate]. intros H.
+  apply andb_true_iff in H as [H D]. apply andb_true_iff in H as [L Sp].
+  apply Nat.ltb_lt in L. destruct (nth_error (body_of h) i) as [x|] eqn:X.
+  - exists h, x. repeat split; assumption.
+  - apply nth_error_None in X. lia.
+Qed.
+
+(* one step: the abstraction of the edited tree is the reference model after the same edit *)
+Lemma apply_op_refines t o t' :
+  op_ok t o = true -> apply_op t o = Done t' -> ref_step (abs t) (op_abs o) = abs t'.
+Proof.
+  intros OK A. destruct o as [hp i|hp i|hp i new|np i new|np new|np s|np s|np s|np idxs];
+    cbn [op_ok apply_op op_abs] in *.
+  - destruct (holder_ok_inv _ _ _ OK) as [h [x [G [X [Sp D]]]]].
+    destruct (delete_is_splice t hp i h x G X Sp D) as [r [Hs Hd]].
+    rewrite Hd in A. apply done_inj in A. subst r.
+    apply (abs_splice_at t hp h i 1 [] t' G Hs).
+  - apply andb_true_iff in OK as [OK E]. apply negb_true_iff in E.
+    destruct (holder_ok_inv _ _ _ OK) as [h [x [G [X [Sp D]]]]].
+    destruct (remove_is_splice t hp i h x G X Sp E) as [r [Hs Hd]].
+    rewrite Hd in A. apply done_inj in A. subst r.
+    apply (abs_splice_at t hp h i 1 [] t' G Hs).
+  - destruct (holder_ok_inv _ _ _ OK) as [h [x [G [X [Sp D]]]]].
+    destruct (replace_with_is_splice t hp i h x new G X Sp D) as [r [Hs Hd]].
+    rewrite Hd in A. apply done_inj in A. subst r.
+    apply (abs_splice_at t hp h i 1 new t' G Hs).
+  - destruct (get t np) as [h|] eqn:G; [|discriminate].
+    apply andb_true_iff in OK as [OK L]. apply andb_true_iff in OK as [N Sp].
+    apply Nat.leb_le in L.
+    destruct (insert_is_splice t np i h new G N Sp L) as [r [Hs Hd]].
+    rewrite Hd in A. apply done_inj in A. subst r.
+    apply (abs_splice_at t np h i 0 new t' G Hs).
+  - destruct (get t np) as [h|] eqn:G; [|discriminate].
+    apply andb_true_iff in OK as [N Sp].
+    destruct (append_is_splice t np h new G N Sp) as [r [Hs Hd]].
+    rewrite Hd in A. apply done_inj in A. subst r.
+    unfold splice_at, set_body_at in Hs. rewrite G in Hs. simpl.
+    apply (abs_update t np h _ t' _ G Hs).
+    rewrite abs_set_body, <- splice_append, map_app, abs_body. reflexivity.
+  - unfold set_name in A. destruct (get t np) as [h|] eqn:G; [|discriminate].
+    destruct h; try discriminate; simpl in A; unfold put_o in A;
+      match type of A with context [put t np ?x] => destruct (put t np x) as [r|] eqn:P end;
+      try discriminate; apply done_inj in A; subst r;
+      apply (abs_update t np _ _ t' _ G P); reflexivity.
+  - unfold set_string in A. destruct (get t np) as [h|] eqn:G; [|discriminate].
+    destruct h as [| | |n a b p| | | |]; try discriminate.
+    destruct a as [|a0 [|a1 a]]; try discriminate.
+    destruct (set_string_cmd_is_set_body t np n a0 b p s G) as [r [Hs Hd]].
+    unfold set_string in Hd. rewrite G in Hd. rewrite Hd in A. apply done_inj in A. subst r.
+    assert (GA : get t (np ++ [SArg 0]) = Some a0) by (rewrite get_app, G; reflexivity).
+    apply (abs_set_body_at t _ a0 [text_of s] t' GA Hs).
+  - unfold set_string in A. destruct (get t np) as [h|] eqn:G; [|discriminate].
+    assert (R : exists h', restring h s = Done h' /\ h' = set_body h [text_of s]).
+    { destruct h; try discriminate; unfold restring in *;
+        (destruct (cview _) as [|[q x] [|y l]]; try discriminate);
+        (destruct (is_node x); try discriminate); eexists; split; reflexivity. }
+    destruct R as [h' [R E]]. rewrite R in A. simpl in A. unfold put_o in A.
+    destruct (put t np h') as [r|] eqn:P; [|discriminate]. apply done_inj in A. subst r h'.
+    simpl. apply (abs_update t np h _ t' _ G P). apply abs_set_body.
+  - unfold set_args in A. destruct (get t np) as [h|] eqn:G; [|discriminate].
+    assert (Ha : has_args h = true) by (destruct h; try discriminate; reflexivity).
+    assert (R : exists a', select (args_of h) idxs = Some a' /\
+                           reargs h idxs = Done (set_args_of h a')).
+    { destruct h; try discriminate; unfold reargs in *; simpl;
+        (destruct (nodup_nat idxs); [|discriminate]);
+        (destruct (select _ idxs) as [a'|]; [|discriminate]); eexists; split; reflexivity. }
+    destruct R as [a' [Sel R]]. rewrite R in A. simpl in A. unfold put_o in A.
+    destruct (put t np (set_args_of h a')) as [r|] eqn:P; [|discriminate].
+    apply done_inj in A. subst r. simpl.
+    apply (abs_update t np h _ t' _ G P).
+    unfold r_select. rewrite abs_args, select_map, Sel. simpl. apply abs_set_args. exact Ha.
+Qed.
+
+Lemma run_ops_refines : forall ops t t',
+  ops_ok t ops -> run_ops t ops = Done t' ->
+  abs t' = fold_left ref_step (map op_abs ops) (abs t).
+Proof.
+  induction ops as [|o ops IH]; intros t t' OK R; simpl in *.
+  - apply done_inj in R. subst. reflexivity.
+  - destruct OK as [OK1 OKr]. destruct (apply_op t o) as [t1|] eqn:A; [|discriminate]. simpl in R.
+    rewrite (apply_op_refines t o t1 OK1 A). apply (IH t1 t' (OKr t1 eq_refl) R).
+Qed.
+
+Lemma C15_refines ops t t' :
+  ops_ok t ops -> run_ops t ops = Done t' ->
+  estr t' = ref_str (fold_left ref_step (map op_abs ops) (abs t)).
+Proof.
+  intros OK R. rewrite <- (run_ops_refines ops t t' OK R). symmetry. apply ref_str_abs.
+Qed.
+
+(* well-targeted operations do not raise *)
+Lemma apply_op_total t o : op_ok t o = true -> exists t', apply_op t o = Done t'.
+Proof.
+  intros OK. destruct o as [hp i|hp i|hp i new|np i new|np new|np s|np s|np s|np idxs];
+    cbn [op_ok apply_op] in *.
+  - destruct (holder_ok_inv _ _ _ OK) as [h [x [G [X [Sp D]]]]].
+    destruct (delete_is_splice t hp i h x G X Sp D) as [r [_ Hd]]. exists r. exact Hd.
+  - apply andb_true_iff in OK as [OK E]. apply negb_true_iff in E.
+    destruct (holder_ok_inv _ _ _ OK) as [h [x [G [X [Sp D]]]]].
+    destruct (remove_is_splice t hp i h x G X Sp E) as [r [_ Hd]]. exists r. exact Hd.
+  - destruct (holder_ok_inv _ _ _ OK) as [h [x [G [X [Sp D]]]]].
+    destruct (replace_with_is_splice t hp i h x new G X Sp D) as [r [_ Hd]]. exists r. exact Hd.
+  - destruct (get t np) as [h|] eqn:G; [|discriminate].
+    apply andb_true_iff in OK as [OK L]. apply andb_true_iff in OK as [N Sp].
+    apply Nat.leb_le in L.
+    destruct (insert_is_splice t np i h new G N Sp L) as [r [_ Hd]]. exists r. exact Hd.
+  - destruct (get t np) as [h|] eqn:G; [|discriminate].
+    apply andb_true_iff in OK as [N Sp].
+    destruct (append_is_splice t np h new G N Sp) as [r [_ Hd]]. exists r. exact Hd.
+  - destruct (get t np) as [h|] eqn:G; [|discriminate].
+    destruct h; try discriminate.
+    + destruct (rename_cmd_local t np _ _ _ _ s G) as [r [Hd _]]. exists r. exact Hd.
+    + destruct (rename_env_local t np _ _ _ _ s G) as [r [Hd _]]. exists r. exact Hd.
+  - destruct (get t np) as [h|] eqn:G; [|discriminate].
+    destruct h as [| | |n a b p| | | |]; try discriminate.
+    destruct a as [|a0 [|a1 a]]; try discriminate.
+    destruct (set_string_cmd_is_set_body t np n a0 b p s G) as [r [_ Hd]]. exists r. exact Hd.
+  - destruct (get t np) as [h|] eqn:G; [|discriminate].
+    apply andb_true_iff in OK as [E V].
+    destruct (cview h) as [|[q x] [|y l]] eqn:CV; try discriminate.
+    apply negb_true_iff in V.
+    destruct (set_string_env_is_set_body t np h q x s G E CV V) as [r [_ Hd]]. exists r. exact Hd.
+  - destruct (get t np) as [h|] eqn:G; [|discriminate].
+    apply andb_true_iff in OK as [OK Sel]. apply andb_true_iff in OK as [Ha Nd].
+    destruct (select (args_of h) idxs) as [a'|] eqn:Se; [|discriminate].
+    destruct (set_args_local t np h idxs a' G Ha Nd Se) as [r [Hd _]]. exists r. exact Hd.
+Qed.
+
+Lemma ops_ok_run : forall ops t, ops_ok t ops -> exists t', run_ops t ops = Done t'.
+Proof.
+  induction ops as [|o ops IH]; intros t OK; simpl in *.
+  - eexists; reflexivity.
+  - destruct OK as [OK1 OKr]. destruct (apply_op_total t o OK1) as [t1 A]. rewrite A. simpl.
+    apply (IH t1 (OKr t1 A)).
+Qed.
+
+Lemma ops_okb_sound : forall ops t, ops_okb t ops = true -> ops_ok t ops.
+Proof.
+  induction ops as [|o ops IH]; intros t H; simpl in *; [exact I|].
+  apply andb_true_iff in H as [H1 H2]. split; [exact H1|].
+  intros t' A. rewrite A in H2. apply IH. exact H2.
+Qed.
+
+(* ----------------------------------------------------- quirks of the faithful model *)
+(* list.insert normalises every index on its own: inserting several items at a negative
+   index does not put them next to each other -- it is no splice at any index *)
+Lemma insert_negative_index_not_a_splice :
+  exists (l new : list nat) (i : Z),
+    forall k, insert_seq i new l <> splice k 0 new l.
+Proof.
+  exists [1; 2]%nat, [8; 9]%nat, (-1)%Z. intros k.
+  destruct k as [|[|[|k]]]; vm_compute; discriminate.
+Qed.
+
+(* ------------------------------------------------------------------- examples *)
+(* \a{x} mid \a{x} end *)
+Definition doc_twins : str := [92; 97; 123; 120; 125; 32; 109; 105; 100; 32; 92; 97; 123; 120; 125; 32; 101; 110; 100]%N.
+(* \a{\b}\c *)
+Definition doc_arg : str := [92; 97; 123; 92; 98; 125; 92; 99]%N.
+(* \begin{e} ab \end{e}\g{h} *)
+Definition doc_env : str := [92; 98; 101; 103; 105; 110; 123; 101; 125; 32; 97; 98; 32; 92; 101; 110; 100; 123; 101; 125; 92; 103; 123; 104; 125]%N.
+(* \c[o]{p}{q} *)
+Definition doc_args : str := [92; 99; 91; 111; 93; 123; 112; 125; 123; 113; 125]%N.
+(* \begin{itemize}\item a \c\end{itemize} *)
+Definition doc_item : str := [92; 98; 101; 103; 105; 110; 123; 105; 116; 101; 109; 105; 122; 101; 125; 92; 105; 116; 101; 109; 32; 97; 32; 92; 99; 92; 101; 110; 100; 123; 105; 116; 101; 109; 105; 122; 101; 125]%N.
+(* \begin{e}{x}\end{e} *)
+Definition doc_envarg : str := [92; 98; 101; 103; 105; 110; 123; 101; 125; 123; 120; 125; 92; 101; 110; 100; 123; 101; 125]%N.
+(* \a{x} mid  end *)
+Definition s_twins_deleted : str := [92; 97; 123; 120; 125; 32; 109; 105; 100; 32; 32; 101; 110; 100]%N.
+(*  mid \a{x} end *)
+Definition s_twins_deleted_first : str := [32; 109; 105; 100; 32; 92; 97; 123; 120; 125; 32; 101; 110; 100]%N.
+Definition s_new : str := [78; 69; 87]%N.
+Definition s_ren : str := [114; 101; 110]%N.
+Definition s_foo : str := [102; 111; 111]%N.
+Definition s_S : str := [83]%N.
+(* \begin{e}{x}S\end{e} *)
+Definition s_envarg_S : str := [92; 98; 101; 103; 105; 110; 123; 101; 125; 123; 120; 125; 83; 92; 101; 110; 100; 123; 101; 125]%N.
+(* \begin{ren} ab \end{ren}\g{h} *)
+Definition s_renamed_env : str := [92; 98; 101; 103; 105; 110; 123; 114; 101; 110; 125; 32; 97; 98; 32; 92; 101; 110; 100; 123; 114; 101; 110; 125; 92; 103; 123; 104; 125]%N.
+(* \c{q}[o] *)
+Definition s_args_sel : str := [92; 99; 123; 113; 125; 91; 111; 93]%N.
+(* \begin{e} ab \end{e}\g{NEW} *)
+Definition s_cmd_string : str := [92; 98; 101; 103; 105; 110; 123; 101; 125; 32; 97; 98; 32; 92; 101; 110; 100; 123; 101; 125; 92; 103; 123; 78; 69; 87; 125]%N.
+
+Definition parsed (s : str) : expr :=
+  match parse s true [] with Ok r => r | Err _ => ERoot [] end.
+Definition done_str (o : outcome expr) : option str :=
+  match o with Done r => Some (estr r) | Raise _ => None end.
+
+(* C05_twins on the real parse of  \a{x} mid \a{x} end : the twins are items 0 and 2 of the
+   root; deleting the second keeps the first, deleting the first keeps the second *)
+Example C05_twins_example :
+  let root := parsed doc_twins in
+  estr root = doc_twins /\
+  (exists x y, nth_error (body_of root) 0 = Some x /\ nth_error (body_of root) 2 = Some y /\
+               estr x = estr y /\ x <> y /\ supports root = true) /\
+  done_str (delete root [] 2) = Some s_twins_deleted /\
+  done_str (delete root [] 0) = Some s_twins_deleted_first.
+Proof.
+  vm_compute. split; [reflexivity|]. split; [|split; reflexivity].
+  eexists; eexists. repeat split; try reflexivity. discriminate.
+Qed.
+
+(* hypotheses of the span lemma / delete / replace_with / C05_twins: a node inside an
+   argument group:  \b  in  \a{\b}\c  is item 0 of the group at [SBody 0; SArg 0] *)
+Example position_example :
+  let root := parsed doc_arg in
+  exists h x, get root [SBody 0; SArg 0] = Some h /\ is_node h = true /\
+              nth_error (body_of h) 0 = Some x /\ is_node x = true /\
+              supports h = true /\ arg_depth_ok [SBody 0; SArg 0] = true /\
+              nav_parent [SBody 0; SArg 0] = [SBody 0].
+Proof. vm_compute. eexists; eexists. repeat split; reflexivity. Qed.
+
+(* hypotheses of remove / insert / append / replace (parent given): the root of \a{\b}\c *)
+Example container_example :
+  let root := parsed doc_arg in
+  exists h x, get root [] = Some h /\ is_node h = true /\ supports h = true /\
+              nth_error (body_of h) 1 = Some x /\ ends_in_arg [] = false /\
+              (2 <= length (body_of h))%nat.
+Proof. vm_compute. eexists; eexists. repeat split; try reflexivity. Qed.
+
+(* a command that is not \item refuses contents *)
+Example insert_refused_example :
+  let root := parsed doc_arg in
+  (exists h, get root [SBody 0] = Some h /\ supports h = false) /\
+  insert root [SBody 0] 0 [EStr s_S] = Raise ETypeError.
+Proof. vm_compute. split; [eexists; split; reflexivity | reflexivity]. Qed.
+
+(* rename: an environment and a command of  \begin{e} ab \end{e}\g{h} *)
+Example rename_example :
+  let root := parsed doc_env in
+  (exists n a b p, get root [SBody 0] = Some (ENamed n a b p)) /\
+  (exists n a b p, get root [SBody 1] = Some (ECmd n a b p)) /\
+  done_str (set_name root [SBody 0] s_ren) = Some s_renamed_env.
+Proof.
+  vm_compute. split; [|split; [|reflexivity]]; eexists; eexists; eexists; eexists; reflexivity.
+Qed.
+
+(* string of a one-argument command, of a text-only environment *)
+Example set_string_example :
+  let root := parsed doc_env in
+  (exists n a0 b p, get root [SBody 1] = Some (ECmd n [a0] b p) /\ is_node a0 = true) /\
+  done_str (set_string root [SBody 1] s_new) = Some s_cmd_string /\
+  (exists h q x, get root [SBody 0] = Some h /\ is_env h = true /\ cview h = [(q, x)] /\
+                 is_node x = false).
+Proof.
+  vm_compute. split; [|split; [reflexivity|]].
+  - eexists; eexists; eexists; eexists. split; reflexivity.
+  - eexists; eexists; eexists. repeat split; reflexivity.
+Qed.
+
+(* arguments of \c[o]{p}{q} re-ordered / sliced to  {q}[o] *)
+Example set_args_example :
+  let root := parsed doc_args in
+  (exists h a', get root [SBody 0] = Some h /\ has_args h = true /\
+                nodup_nat [2; 0]%nat = true /\ select (args_of h) [2; 0]%nat = Some a') /\
+  done_str (set_args root [SBody 0] [2; 0]%nat) = Some s_args_sel.
+Proof.
+  vm_compute. split; [|reflexivity]. eexists; eexists. repeat split; reflexivity.
+Qed.
+
+(* a well-targeted history on \a{x} mid \a{x} end *)
+Definition example_history : list op :=
+  [ ODelete [] 2;
+    OInsert [] 1 [EStr s_S; ECmd s_foo [] [] (-1)];
+    ORename [SBody 0] s_ren;
+    OSetStringCmd [SBody 0] s_new;
+    OReplaceWith [SBody 0; SArg 0] 0 [EStr s_foo];
+    OAppend [] [EStr s_S];
+    OSetArgs [SBody 0] [];
+    ORemove [] 0 ].
+Example history_example :
+  ops_okb (parsed doc_twins) example_history = true /\
+  (exists t', run_ops (parsed doc_twins) example_history = Done t' /\
+              estr t' = [83; 92; 102; 111; 111; 32; 109; 105; 100; 32; 32; 101; 110; 100; 83]%N).
+Proof. vm_compute. split; [reflexivity|]. eexists. split; reflexivity. Qed.
+
+(* --------------------------------------------------------------------- refuted *)
+(* C15 as written allows renaming in a history.  Renaming an \item makes it a command
+   "without children": its contents stay in the tree and in str(), but no edit reaches
+   them any more -- deleting its child raises TypeError where the reference model
+   deletes.  (Real code: same, see corr_edit.SCRIPTED.) *)
+Lemma C15_rename_item_refuted :
+  exists (t t1 : expr) (hp : path) (i : nat) (x : expr),
+    apply_op t (ORename [SBody 0; SBody 0] s_foo) = Done t1 /\
+    op_ok t (ORename [SBody 0; SBody 0] s_foo) = true /\
+    op_ok t (ODelete hp i) = true /\
+    get t1 (hp ++ [SBody i]) = Some x /\ is_node x = true /\
+    apply_op t1 (ODelete hp i) = Raise ETypeError /\
+    ref_str (ref_step (abs t1) (op_abs (ODelete hp i))) <> estr t1.
+Proof.
+  exists (parsed doc_item).
+  eexists. exists [SBody 0; SBody 0], 1%nat. eexists.
+  vm_compute. repeat split; try reflexivity. discriminate.
+Qed.
+
+(* C14: "assigning the string of a text-only environment changes exactly that part".
+   For an environment whose only text sits in its argument, .string reads that text but
+   assigning it appends a body instead, after which .string can no longer be read or
+   assigned (AssertionError). *)
+Lemma C14_set_string_env_argument_text_refuted :
+  exists (t t1 : expr) (np : path),
+    (exists h q x, get t np = Some h /\ is_env h = true /\ cview h = [(q, x)] /\
+                   is_node x = false /\ body_of h = []) /\
+    set_string t np s_S = Done t1 /\ estr t1 = s_envarg_S /\
+    set_string t1 np s_S = Raise EAssertionError.
+Proof.
+  exists (parsed doc_envarg). eexists. exists [SBody 0].
+  vm_compute. split; [|repeat split; reflexivity].
+  eexists; eexists; eexists. repeat split; reflexivity.
+Qed.
+
+(* ------------------------------------------------ the statements of C05, assembled *)
+Lemma splice_one_text root hp h i x new root' :
+  get root hp = Some h -> nth_error (body_of h) i = Some x ->
+  splice_at root hp i 1 new = Some root' ->
+  estr root  = span_pre root hp ++ estr_list (firstn i (body_of h)) ++ estr x
+                 ++ estr_list (skipn (S i) (body_of h)) ++ span_post root hp /\
+  estr root' = span_pre root hp ++ estr_list (firstn i (body_of h)) ++ estr_list new
+                 ++ estr_list (skipn (S i) (body_of h)) ++ span_post root hp.
+Proof.
+  intros G X Sp. pose proof (child_is_node h (SBody i) x X) as N.
+  destruct (serialise_update root hp h G N) as [E U]. split.
+  - rewrite E, (estr_list_split _ _ _ X). rewrite <- !app_assoc. reflexivity.
+  - destruct (U i 1%nat new) as [r [Hs He]]. rewrite Sp in Hs. inversion Hs; subst r.
+    rewrite He. replace (i + 1)%nat with (S i) by lia. reflexivity.
+Qed.
+
+Lemma splice_zero_text root np h i new root' :
+  get root np = Some h -> is_node h = true ->
+  splice_at root np i 0 new = Some root' ->
+  estr root  = span_pre root np ++ estr_list (firstn i (body_of h))
+                 ++ estr_list (skipn i (body_of h)) ++ span_post root np /\
+  estr root' = span_pre root np ++ estr_list (firstn i (body_of h)) ++ estr_list new
+                 ++ estr_list (skipn i (body_of h)) ++ span_post root np.
+Proof.
+  intros G N Sp. destruct (serialise_update root np h G N) as [E U]. split.
+  - rewrite E. rewrite <- (firstn_skipn i (body_of h)) at 1. rewrite estr_list_app.
+    rewrite <- !app_assoc. reflexivity.
+  - destruct (U i 0%nat new) as [r [Hs He]]. rewrite Sp in Hs. inversion Hs; subst r.
+    rewrite He, Nat.add_0_r. reflexivity.
+Qed.
+
+Lemma C05_delete_local root hp i h x :
+  get root hp = Some h -> nth_error (body_of h) i = Some x ->
+  supports h = true -> arg_depth_ok hp = true ->
+  exists root', delete root hp i = Done root' /\ splice_at root hp i 1 [] = Some root' /\
+    estr root  = span_pre root hp ++ estr_list (firstn i (body_of h)) ++ estr x
+                   ++ estr_list (skipn (S i) (body_of h)) ++ span_post root hp /\
+    estr root' = span_pre root hp ++ estr_list (firstn i (body_of h))
+                   ++ estr_list (skipn (S i) (body_of h)) ++ span_post root hp.
+Proof.
+  intros G X Sp D. destruct (delete_is_splice root hp i h x G X Sp D) as [r [Hs Hd]].
+  exists r. split; [exact Hd|]. split; [exact Hs|].
+  exact (splice_one_text root hp h i x [] r G X Hs).
+Qed.
+
+Lemma C05_remove_local root hp i h x :
+  get root hp = Some h -> nth_error (body_of h) i = Some x ->
+  supports h = true -> ends_in_arg hp = false ->
+  exists root', remove root hp i = Done root' /\ splice_at root hp i 1 [] = Some root' /\
+    estr root  = span_pre root hp ++ estr_list (firstn i (body_of h)) ++ estr x
+                   ++ estr_list (skipn (S i) (body_of h)) ++ span_post root hp /\
+    estr root' = span_pre root hp ++ estr_list (firstn i (body_of h))
+                   ++ estr_list (skipn (S i) (body_of h)) ++ span_post root hp.
+Proof.
+  intros G X Sp E. destruct (remove_is_splice root hp i h x G X Sp E) as [r [Hs Hd]].
+  exists r. split; [exact Hd|]. split; [exact Hs|].
+  exact (splice_one_text root hp h i x [] r G X Hs).
+Qed.
+
+Lemma C05_replace_with_local root hp i h x new :
+  get root hp = Some h -> nth_error (body_of h) i = Some x ->
+  supports h = true -> arg_depth_ok hp = true ->
+  exists root', replace_with root hp i new = Done root' /\
+    splice_at root hp i 1 new = Some root' /\
+    estr root  = span_pre root hp ++ estr_list (firstn i (body_of h)) ++ estr x
+                   ++ estr_list (skipn (S i) (body_of h)) ++ span_post root hp /\
+    estr root' = span_pre root hp ++ estr_list (firstn i (body_of h)) ++ estr_list new
+                   ++ estr_list (skipn (S i) (body_of h)) ++ span_post root hp.
+Proof.
+  intros G X Sp D. destruct (replace_with_is_splice root hp i h x new G X Sp D) as [r [Hs Hd]].
+  exists r. split; [exact Hd|]. split; [exact Hs|].
+  exact (splice_one_text root hp h i x new r G X Hs).
+Qed.
+
+Lemma C05_replace_local root pp hp i P h x new :
+  get root pp = Some P -> (hp = pp \/ exists j, hp = pp ++ [SArg j]) ->
+  get root hp = Some h -> nth_error (body_of h) i = Some x -> supports h = true ->
+  exists root', replace_via root pp hp i new = Done root' /\
+    splice_at root hp i 1 new = Some root' /\
+    estr root  = span_pre root hp ++ estr_list (firstn i (body_of h)) ++ estr x
+                   ++ estr_list (skipn (S i) (body_of h)) ++ span_post root hp /\
+    estr root' = span_pre root hp ++ estr_list (firstn i (body_of h)) ++ estr_list new
+                   ++ estr_list (skipn (S i) (body_of h)) ++ span_post root hp.
+Proof.
+  intros GP Hp G X Sp.
+  destruct (replace_is_splice root pp hp i P h x new GP Hp G X Sp) as [r [Hs Hd]].
+  exists r. split; [exact Hd|]. split; [exact Hs|].
+  exact (splice_one_text root hp h i x new r G X Hs).
+Qed.
+
+Lemma C05_insert_local root np i h new :
+  get root np = Some h -> is_node h = true -> supports h = true ->
+  (i <= length (body_of h))%nat ->
+  exists root', insert root np (Z.of_nat i) new = Done root' /\
+    splice_at root np i 0 new = Some root' /\
+    estr root  = span_pre root np ++ estr_list (firstn i (body_of h))
+                   ++ estr_list (skipn i (body_of h)) ++ span_post root np /\
+    estr root' = span_pre root np ++ estr_list (firstn i (body_of h)) ++ estr_list new
+                   ++ estr_list (skipn i (body_of h)) ++ span_post root np.
+Proof.
+  intros G N Sp L. destruct (insert_is_splice root np i h new G N Sp L) as [r [Hs Hd]].
+  exists r. split; [exact Hd|]. split; [exact Hs|].
+  exact (splice_zero_text root np h i new r G N Hs).
+Qed.
+
+Lemma C05_append_local root np h new :
+  get root np = Some h -> is_node h = true -> supports h = true ->
+  exists root', append root np new = Done root' /\
+    splice_at root np (length (body_of h)) 0 new = Some root' /\
+    estr root  = span_pre root np ++ estr_list (body_of h) ++ span_post root np /\
+    estr root' = span_pre root np ++ estr_list (body_of h) ++ estr_list new ++ span_post root np.
+Proof.
+  intros G N Sp. destruct (append_is_splice root np h new G N Sp) as [r [Hs Hd]].
+  exists r. split; [exact Hd|]. split; [exact Hs|].
+  destruct (splice_zero_text root np h _ new r G N Hs) as [_ E2].
+  split; [apply serialise_body; exact G|].
+  rewrite E2, firstn_all, skipn_all. rewrite estr_list_nil. reflexivity.
+Qed.
+
+(* hypotheses of untargeted_unchanged: deleting x from the first {x} of
+   \a{x} mid \a{x} end  leaves the second \a{x} (a path that parts ways) as it was *)
+Example untargeted_example :
+  let root := parsed doc_twins in
+  exists h root', get root [SBody 0; SArg 0] = Some h /\ is_node h = true /\
+    (0 <= length (body_of h))%nat /\
+    splice_at root [SBody 0; SArg 0] 0 1 [] = Some root' /\
+    diverges [SBody 0; SArg 0] [SBody 2] = true /\
+    get root' [SBody 2] = get root [SBody 2] /\ estr root' <> estr root.
+Proof.
+  vm_compute. eexists; eexists.
+  repeat split; try reflexivity; try discriminate; apply Nat.le_0_l.
 Qed.
